@@ -53,7 +53,9 @@ func statCaseN(rnd *rand.Rand, key *ecdsa.PrivateKey, out *bufio.Writer, n int, 
 	snd := &captureSender{}
 	sl.Start(key, snd, 7, uint32(n), "uuid-1", "client-1", "0xabc")
 	base := time.Unix(1_700_000_000, 0)
-	pool := []int64{0, 0, 1, 2, 5, 999, 1000, 1001, 12000, 250000, 1_000_000}
+	// up to 16 s a round (a float32 holds the microseconds of one round exactly up to 2^24 = 16.7 s; the sum of a few
+	// such rounds is past that)
+	pool := []int64{0, 0, 1, 2, 5, 999, 1000, 1001, 12000, 250000, 1_000_000, 5_600_001, 8_000_003, 16_000_001, 16_000_001}
 	var lats []int64
 	var finalL int64
 	for round := 0; round < n; round++ {
